@@ -12,9 +12,21 @@
 (***************************************************************************)
 EXTENDS Naturals, Sequences, FiniteSets, TLC, Json, IOUtils
 CONSTANTS Export, MaxLen
+\* Operations whose REPLY WRITE fails with something other than "connection closed" (the serving side then takes its
+\* fallback path: second reply with 500 and the cause of the failure; the handling status may be one of the shared
+\* statuses, e.g. 404 for an unknown route):
+\*   unencodable  known route, the handler's result cannot be encoded (the codec reports an error)
+\*   agedunknown  unknown route on a serving peer whose context age (1 ns) has run out when the reply is written
+\*   agedknown    the same for a known route (handler succeeds, the reply is refused by the expired handling context)
+\*   wfailunknown unknown route, the serving side's connection fails every write with a reset error while it still reads
+\*                (reply and fallback reply both fail; the call ends when the serving side closes)
+\*   wfailknown   the same for a known route
+\* All of them are full members of the alphabet (every pair with every other operation, both orders): 20 operations give
+\* 20 + 400 histories of length <= 2 instead of 15 + 225; each costs a few milliseconds, so no pair is left out.
+ReplyFail == {"unencodable", "agedunknown", "agedknown", "wfailunknown", "wfailknown"}
 Ops == {"okcall", "unknownroute", "undecodable", "handlerpanic", "callclosed", "pushclosed",
         "proxyok", "proxybackenddown", "proxypushbackenddown", "proxycut", "authreject", "overloadreject", "securemismatch",
-        "latepre", "userstatus"}
+        "latepre", "userstatus"} \cup ReplyFail
 VARIABLES hist
 Init == hist = <<>>
 Step(o) == Len(hist) < MaxLen /\ hist' = Append(hist, o)
